@@ -14,9 +14,9 @@ I64 = (-2**63, 2**63 - 1)
 
 # store paths; the tag after ':' is the way the value reaches the store
 PATHS = [
-    "decl:lit", "decl:var", "decl:expr", "for-init:lit",
+    "decl:lit", "decl:var", "decl:var-tight", "decl:var-flip", "decl:expr", "for-init:lit",
     "decl:tern-lit", "decl:tern-else", "decl:tern-var", "decl:call", "decl:elem1", "decl:const", "decl:block",
-    "assign:lit", "assign:var", "assign:expr",
+    "assign:lit", "assign:var", "assign:var-tight", "assign:var-flip", "assign:expr",
     "assign:tern-lit", "assign:tern-else", "assign:tern-var", "assign:tern-expr", "assign:tern-call", "assign:tern-nested",
     "assign:tern-tinyvar", "assign:tern-bool",
     "assign:call", "assign:elem1", "assign:uninit", "assign:global", "assign:param", "assign:outer", "assign:static",
@@ -24,16 +24,16 @@ PATHS = [
     "compound:global", "compound:static",
     "incdec-var:pre", "incdec-var:post", "incdec-var:for-update", "incdec-var:global", "incdec-var:param", "incdec-var:static",
     "incdec-elem:pre", "incdec-elem:post",
-    "arg:lit", "arg:var", "arg:default", "arg:expr", "arg:call", "arg:tern", "arg:second",
-    "return:var", "return:expr", "return:lit", "return:tern", "return:call", "return:nested", "return:direct",
-    "elem1:lit", "elem1:var", "elem1:tern", "elem1:call", "elem1:global", "elem1:var-index", "elem1-compound:add", "elem1-compound:var-index",
-    "elemN:lit2", "elemN:var2", "elemN:lit3", "elemN:tern", "elemN:call",
+    "arg:lit", "arg:var", "arg:var-tight", "arg:var-flip", "arg:default", "arg:expr", "arg:call", "arg:tern", "arg:second",
+    "return:var", "return:var-tight", "return:var-flip", "return:expr", "return:lit", "return:tern", "return:call", "return:nested", "return:direct",
+    "elem1:lit", "elem1:var", "elem1:var-tight", "elem1:var-flip", "elem1:tern", "elem1:call", "elem1:global", "elem1:var-index", "elem1-compound:add", "elem1-compound:var-index",
+    "elemN:lit2", "elemN:var2", "elemN:var2-tight", "elemN:lit3", "elemN:tern", "elemN:call",
     "literal1:lit", "literal1:var", "literalN:lit",
     "global:scalar", "global:array", "global:const",
     "static:lit", "static:expr",
     "from-elemN:decl", "from-elemN:assign", "from-elemN:return",
     # direct stores into struct members (CbCore plain structs; range checked since fix a3f0b3d)
-    "member:lit", "member:var", "member:tern", "member:call", "member:compound", "member:incdec-pre", "member:incdec-post",
+    "member:lit", "member:var", "member:var-tight", "member:var-flip", "member:tern", "member:call", "member:compound", "member:incdec-pre", "member:incdec-post",
     "member:elem1", "member:elemN",
 ]
 # matrix path -> path of the Mech model (coq/C04/Model.v [path])
@@ -54,7 +54,7 @@ MECH_PATH = {
 # `unsigned T8 x;` are parse errors): declaration.cpp has its own branch for typedef'd declarations
 TYPEDEF_ALIAS = {"tiny": "T8", "short": "S16", "int": "I32", "long": "L64", "char": "C8"}
 TD_MECH_PATH = {"decl:tern-lit": "decl-typedef-ternary", "decl:tern-else": "decl-typedef-ternary", "decl:tern-var": "decl-typedef-ternary",
-                "decl:lit": "decl-typedef", "decl:var": "decl-typedef", "decl:expr": "decl-typedef", "decl:call": "decl-typedef",
+                "decl:lit": "decl-typedef", "decl:var": "decl-typedef", "decl:var-tight": "decl-typedef", "decl:var-flip": "decl-typedef", "decl:expr": "decl-typedef", "decl:call": "decl-typedef",
                 "decl:elem1": "decl-typedef", "decl:const": "decl-typedef", "decl:block": "decl-typedef", "for-init:lit": "decl-typedef",
                 "from-elemN:decl": "decl-typedef",
                 # a typedef'd array declaration with a literal goes through handle_array_literal_initialization ->
@@ -152,6 +152,12 @@ def incdec_start(t, v, rng):
 IDENT = "(F 2 long ((7 long)) ((ret (v 7))))"          # long f2(long v7) { return v7; }
 
 
+def tight_carrier(t, v, rng):
+    """one of the two narrowest integer types other than `t` (and char) whose range holds v"""
+    c = sorted((x for x in TYPES if x not in (t, "char") and RANGES[x][0] <= v <= RANGES[x][1]), key=lambda x: RANGES[x][1] - RANGES[x][0])
+    return rng.choice(c[:2]) if c else None
+
+
 def build(path, t, v, rng):
     """-> (sexpr, mech_query, extra) for one program storing `v` into a `t` cell along `path`:
     the program prints the target cell first and then len(extra) neighbour cells whose values must be
@@ -164,6 +170,18 @@ def build(path, t, v, rng):
         return None
     G, F, M = [], [], []
     W = "long"       # carrier type for the value on its way to the store
+    if how.endswith("-tight"):
+        # the value arrives in a variable of the NARROWEST other type that holds it (unsigned ones included) instead of a long
+        W = tight_carrier(t, v, rng)
+        if W is None:
+            return None
+        how = how[:-6]
+    elif how.endswith("-flip"):
+        # ... of the SAME base type with the other signedness (same TypeInfo in the interpreter, only is_unsigned differs)
+        W = ("u" + t) if not t.startswith("u") else t[1:]
+        if W not in RANGES or not (RANGES[W][0] <= v <= RANGES[W][1]):
+            return None
+        how = how[:-5]
     extra = []
     mpath = MECH_PATH.get(path) or MECH_PATH[p]
     query = "store %s %s %d" % (mpath, t, v)
@@ -346,7 +364,7 @@ def build(path, t, v, rng):
                 raise ValueError(path)
     elif p == "return":
         if how == "var":
-            F = ["(F 1 %s ((1 long)) ((ret (v 1))))" % t]
+            F = ["(F 1 %s ((1 %s)) ((ret (v 1))))" % (t, W)]
             M = ["(decl 0 0 long 3 (call 1 %d))" % v, _readback(3)]
         elif how == "expr":
             a, b = split_sum(v, rng)
@@ -551,14 +569,16 @@ def typedef_source(src, t):
     """the Cb text printed by the reference printer with every occurrence of the type name `t` replaced by a typedef alias"""
     import re
     alias = TYPEDEF_ALIAS[t]
-    return "typedef %s %s;\n" % (t, alias) + re.sub(r"\b%s\b" % t, alias, src)
+    # (`unsigned tiny` - the type of a carrier variable - stays: `unsigned T8` is a parse error)
+    return "typedef %s %s;\n" % (t, alias) + re.sub(r"(?<!unsigned )\b%s\b" % t, alias, src)
 
 
 # ---------------------------------------------------------------------------------------------
 # cells outside CbCore (no Ref run: the expected transcript is the Spec conversion of the one store)
 # ---------------------------------------------------------------------------------------------
 RAW_PATHS = ["multi-decl:lit", "multi-decl:first", "multi-decl:var", "multi-decl:call", "multi-decl:tern",
-             "incdec-expr:post", "incdec-expr:pre", "neglit:decl", "neglit:assign", "elem1:param", "funcptr-arg:lit",
+             "incdec-expr:post", "incdec-expr:pre", "neglit:decl", "neglit:assign", "elem1:param", "elem1:assign-expr", "elem1-compound:assign-expr",
+             "funcptr-arg:lit",
              "arrlit-assign:1d", "arrlit-assign:2d", "arr-copy:assign", "arr-copy:param",
              # direct member stores (range checked since fix a3f0b3d: Mech = Spec, main must show the Spec transcript)
              "member:assign", "member:compound", "member:array-elem", "member:array-elem2", "member:param", "member:generic",
@@ -570,7 +590,7 @@ RAW_PATHS = ["multi-decl:lit", "multi-decl:first", "multi-decl:var", "multi-decl
              "member-nested:assign", "member-nested:compound", "member-pointer:arrow", "member-pointer:deref-dot",
              "member-reference:local", "member-reference:param", "member-reference:self",
              "member-struct-array:assign", "member-struct-array:compound",
-             "deref:assign", "reference:assign", "reference:param"]
+             "deref:assign", "deref:incdec", "reference:assign", "reference:param", "reference:incdec"]
 
 
 def raw_build(path, t, v, rng):
@@ -627,6 +647,23 @@ def raw_build(path, t, v, rng):
         src = ("void f( %s[3] a , long x ) {\n  a[ 1 ] = x ;\n  println( ( 0 + a[ 1 ] ) ) ;\n  println( ( 0 + a[ 0 ] ) ) ;\n}\n"
                "void main() {\n  %s[3] a ;\n  f( a , %s ) ;\n}\n" % (T, T, lit(v)))
         return src, "store elem1 %s %d" % (t, v), [0]
+    if path == "elem1:assign-expr":
+        # an assignment to a 1-D element used as an expression: evaluator/operators/assignment.cpp -> Interpreter::assign_array_element
+        # (the only assignment expression that works: a variable target crashes - finding C04-assignment-expression-crash -, a
+        # multi-dimensional element and a member are refused).  The value of the expression is the right-hand side as evaluated; it is
+        # printed only when the store keeps it as it is
+        keeps = lo <= v <= hi
+        src = ("void main() {\n  %s[3] a ;\n  long w = ( a[ 1 ] = %s ) ;\n  println( ( 0 + a[ 1 ] ) ) ;\n  println( ( 0 + a[ 0 ] ) ) ;\n"
+               "  println( ( 0 + a[ 2 ] ) ) ;\n%s}\n" % (T, lit(v), "  println( w ) ;\n" if keeps and (hi < 128 or v < (hi + 1) // 2) else ""))
+        return src, "store elem1 %s %d" % (t, v), [0, 0] + (["="] if keeps and (hi < 128 or v < (hi + 1) // 2) else [])
+    if path == "elem1-compound:assign-expr":
+        r = compound_operands("add", t, v, rng, nonneg_start=(t == "char"))
+        if r is None:
+            return None
+        start, op, operand = r
+        src = ("void main() {\n  %s[3] a = [ 0 , %s , 0 ] ;\n  long w = ( a[ 1 ] %s= %s ) ;\n  println( ( 0 + a[ 1 ] ) ) ;\n  println( ( 0 + a[ 0 ] ) ) ;\n"
+               "  println( ( 0 + a[ 2 ] ) ) ;\n}\n" % (T, lit(start), op, lit(operand)))
+        return src, "update elem1-compound %s %d %d" % (t, start, operand), [0, 0]
     if p == "funcptr-arg":
         # evaluator/functions/call_impl.cpp:354/523 (call through a function pointer): assign_function_parameter.
         # A range error on this path ends in SIGSEGV after the message (finding C04-funcptr-arg-range-error-crash): in-range and
@@ -787,6 +824,26 @@ def raw_build(path, t, v, rng):
     if p == "deref":
         src = "void main() {\n  %s b = 1 ;\n  %s* p = &b ;\n  *p = %s ;\n%s}\n" % (T, T, lit(v), rb)
         return src, "store deref %s %d" % (t, v), []
+    if path == "deref:incdec":
+        # ( *p ) ++ / -- ( *p ): incdec.cpp, dereference branch - `target_var->value += 1`, no clamp, no check (finding C04-pointer-store-unchecked)
+        r = incdec_start(t, v, rng)
+        if r is None:
+            return None
+        start, inc = r
+        o = "++" if inc else "--"
+        e = ("( *p ) %s" % o) if rng.randint(0, 1) else ("%s ( *p )" % o)
+        src = "void main() {\n  %s b = %s ;\n  %s* p = &b ;\n  %s ;\n%s}\n" % (T, lit(start), T, e, rb)
+        return src, "store deref %s %d" % (t, v), []
+    if path == "reference:incdec":
+        # q ++ through a reference: unlike q = e and q op= e it reaches the variable branch of incdec.cpp and IS clamped and checked
+        r = incdec_start(t, v, rng)
+        if r is None:
+            return None
+        start, inc = r
+        o = "++" if inc else "--"
+        e = ("q %s" % o) if rng.randint(0, 1) else ("%s q" % o)
+        src = "void main() {\n  %s b = %s ;\n  %s& q = b ;\n  %s ;\n%s}\n" % (T, lit(start), T, e, rb)
+        return src, "store incdec-var %s %d" % (t, v), []
     if p == "reference":
         if how == "assign":
             src = "void main() {\n  %s b = 1 ;\n  %s& q = b ;\n  q = %s ;\n%s}\n" % (T, T, lit(v), rb)
@@ -811,6 +868,563 @@ def raw_matrix(rng, types=None, paths=None):
                     continue
                 src, query, extra = r
                 out.append((src, {"path": "raw/" + path, "type": t, "kind": kind, "value": v, "query": query, "extra": extra, "raw": True}))
+    return out
+
+
+# ---------------------------------------------------------------------------------------------
+# stores under `try` / `checked`: the range error is caught, the program goes on, and what the REJECTED store left in its target
+# (and in its neighbours) is read back.  Every cell is a sequence of stores into one target, each under try, each followed by reads;
+# the model answers `effects <path> <type> <cell> <op> ..` (Mech: order of check and write of the path) / `spec-effects ..` (Spec: a
+# rejected store changes nothing) give, per store, accepted / rejected and what the cell holds afterwards; CbCore cells are also run
+# on the extracted try layer (coq/C04/Try.v, `bin/c04_model try`).
+# ---------------------------------------------------------------------------------------------
+TRY_PATHS = [
+    "try-incdec-var:post", "try-incdec-var:pre", "try-incdec-var:global", "try-incdec-var:checked",
+    "try-incdec-elem:post", "try-incdec-elem:pre", "try-incdec-elem:global",
+    "try-incdec-member:post", "try-incdec-member:pre",
+    "try-call-assign:var", "try-call-assign:lit", "try-call-assign:expr", "try-call-assign:tern", "try-call-assign:call",
+    "try-call-assign:nested", "try-call-assign:checked",
+    "try-call-compound:add", "try-call-incdec:stmt",
+    "try-call-elem1:global", "try-call-elemN:global", "try-call-incdec-elem:global",
+    "try-call-static:assign", "try-call-static:init",
+    "try-call-arg:narrow", "try-call-arg:second", "try-call-return:narrow", "try-call-decl:local",
+]
+# try path -> path of the Mech model (the `effects` query)
+TRY_MECH = {
+    "try-incdec-var": "incdec-var", "try-incdec-elem": "incdec-elem1", "try-incdec-elem:global": "elem1-global",
+    "try-incdec-member": "member",
+    "try-call-assign": "assign", "try-call-assign:tern": "assign-hint:long", "try-call-assign:call": "assign-call",
+    "try-call-compound": "compound", "try-call-incdec": "incdec-var",
+    "try-call-elem1:global": "elem1-global", "try-call-elemN:global": "elemN-global", "try-call-incdec-elem:global": "elem1-global",
+    "try-call-static:assign": "static-assign", "try-call-static:init": "static",
+    "try-call-arg": "arg", "try-call-return": "return", "try-call-decl": "decl",
+}
+
+
+def _try(chk, action):
+    return "(try %d %s)" % (1 if chk else 0, action)
+
+
+def _pr(*es):
+    return "(print 1 %s)" % " ".join(es)
+
+
+def _rd(x):
+    return "(bin + (v %d) 0)" % x
+
+
+def _rde(a, idx):
+    return "(bin + 0 (idx %d %s))" % (a, " ".join(map(str, idx)))
+
+
+def accepted_value(t, rng, avoid=()):
+    lo, hi = RANGES[t]
+    for _ in range(20):
+        w = rng.choice([lo, hi, rng.randint(lo, hi), rng.randint(max(lo, -100), min(hi, 100))])
+        if w not in avoid:
+            return w
+    return 0 if 0 not in avoid else 1
+
+
+def try_build(path, t, v, rng):
+    """-> None or a cell {sexpr, mpath, type, cell0, ops, payloads, after}: a try-program (S-expression of coq/C04/Try.v) that performs
+    len(ops) stores into one target, each under try / checked, the first one storing `v`.
+      ops      : the stores as `effects` operations (=V store V, +D store cell + D)
+      payloads : per store what Ok( w ) carries - "7" (the callee's constant result), "old" / "new" (x++ / ++x: the stored value before /
+                 after), "newread" (a read of the target afterwards)
+      after    : per store the println that follows it - a list of tokens, "T" = a read of the target, an int = a constant neighbour
+                 (None: no println)
+      cell0    : what the target holds before the first store"""
+    if not in64(v):
+        return None
+    p, how = path.split(":")
+    mpath = TRY_MECH.get(path) or TRY_MECH[p]
+    lo, hi = RANGES[t]
+    chk = how == "checked"
+    G, F, M = [], [], []
+    tail = None
+    SENT = "(G 0 long 9 () (7))"           # long v9 = 7 : a sentinel global that nothing stores to
+    if p in ("try-incdec-var", "try-incdec-elem", "try-incdec-member") or path in ("try-call-incdec:stmt", "try-call-incdec-elem:global"):
+        r = incdec_start(t, v, rng)
+        if r is None:
+            return None
+        start, inc = r
+        d = 1 if inc else -1
+        ops = ["+%d" % d, "+%d" % d, "+%d" % -d, "+%d" % d]
+        incs = [inc, inc, 1 - inc, inc]
+        if p == "try-incdec-var":
+            pres = [1 if how == "pre" else 0 if how == "post" else rng.randint(0, 1)] + [rng.randint(0, 1) for _ in range(3)]
+            if how == "global":
+                G = ["(G 0 %s 1 () (%d))" % (t, start), SENT]
+                nb = 7
+                rdn = "(v 9)"
+            else:
+                M = ["(decl 0 0 %s 1 %d)" % (t, start), "(decl 0 0 long 3 7)"]
+                nb = 7
+                rdn = "(v 3)"
+            acts = [_try(chk, "(incdec %d %d (v 1))" % (pres[k], incs[k])) for k in range(4)]
+            M += [acts[0], _pr(_rd(1), rdn), acts[1], _pr(_rd(1)), acts[2], _pr(_rd(1), rdn), acts[3], _pr(_rd(1))]
+            after = [["T", nb], ["T"], ["T", nb], ["T"]]
+            payloads = ["new" if x else "old" for x in pres]
+            # the target once more through other read paths: bound to a parameter, copied into a long, printed as it is
+            F = [IDENT]
+            M += ["(decl 0 0 long 5 (v 1))", _pr("(call 2 (v 1))", "(v 5)", *([] if t == "char" else ["(v 1)"]))]
+            tail = ["T", "T"] + ([] if t == "char" else ["T"])
+        elif p == "try-incdec-elem":
+            pres = [1 if how == "pre" else 0 if how == "post" else rng.randint(0, 1)] + [rng.randint(0, 1) for _ in range(3)]
+            if how == "global":
+                G = ["(G 0 %s 1 (3) (0 %d 1))" % (t, start)]
+            else:
+                M = ["(arr 0 %s 1 (3) (0 %d 1))" % (t, start)]
+            acts = [_try(chk, "(incdec %d %d (idx 1 1))" % (pres[k], incs[k])) for k in range(4)]
+            rd3 = _pr(_rde(1, [1]), _rde(1, [0]), _rde(1, [2]))
+            M += [acts[0], rd3, acts[1], _pr(_rde(1, [1])), acts[2], rd3, acts[3], _pr(_rde(1, [1]))]
+            after = [["T", 0, 1], ["T"], ["T", 0, 1], ["T"]]
+            payloads = ["new" if x else "old" for x in pres]
+            # the element once more through a variable index and bound to a parameter
+            F = [IDENT]
+            M += ["(decl 0 0 int 4 1)", _pr("(bin + 0 (idx 1 (v 4)))", "(call 2 (idx 1 1))")]
+            tail = ["T", "T"]
+        elif p == "try-incdec-member":
+            pres = [1 if how == "pre" else 0] + [rng.randint(0, 1) for _ in range(3)]
+            tgt = 1017                       # v2.m1 ; v2.m0 = 5 and v2.m2 = 6 are the neighbours
+            M = ["(struct 1 2 long %s long)" % t, "(asg (v 1016) 5)", "(asg (v 1018) 6)", "(asg (v %d) %d)" % (tgt, start)]
+            acts = [_try(chk, "(incdec %d %d (v %d))" % (pres[k], incs[k], tgt)) for k in range(4)]
+            rd3 = _pr(_rd(tgt), "(v 1016)", "(v 1018)")
+            M += [acts[0], rd3, acts[1], _pr(_rd(tgt)), acts[2], rd3, acts[3], _pr(_rd(tgt))]
+            after = [["T", 5, 6], ["T"], ["T", 5, 6], ["T"]]
+            payloads = ["new" if x else "old" for x in pres]
+            # the member once more through a copy of the whole struct (the struct's own member table, not the variable `v2.m1`)
+            M += ["(struct 1 3 long %s long)" % t, "(copy 3 2 long %s long)" % t, _pr(_rd(1025), "(v 1024)", "(v 1026)")]
+            tail = ["T", 5, 6]
+        elif path == "try-call-incdec:stmt":
+            # the callee performs the ++ / -- on a global
+            G = ["(G 0 %s 1 () (%d))" % (t, start), SENT]
+            pre = rng.randint(0, 1)
+            F = ["(F 1 long () ((incdec %d %d (v 1)) (ret 7)))" % (pre, inc), "(F 3 long () ((incdec %d %d (v 1)) (ret 7)))" % (pre, 1 - inc)]
+            acts = [_try(chk, "(call %d)" % f) for f in (1, 1, 3, 1)]
+            M = [acts[0], _pr(_rd(1), "(v 9)"), acts[1], _pr(_rd(1)), acts[2], _pr(_rd(1), "(v 9)"), acts[3], _pr(_rd(1))]
+            after = [["T", 7], ["T"], ["T", 7], ["T"]]
+            payloads = ["7"] * 4
+        else:
+            G = ["(G 0 %s 1 (3) (0 %d 1))" % (t, start)]
+            pre = rng.randint(0, 1)
+            F = ["(F 1 long () ((incdec %d %d (idx 1 1)) (ret 7)))" % (pre, inc), "(F 3 long () ((incdec %d %d (idx 1 1)) (ret 7)))" % (pre, 1 - inc)]
+            acts = [_try(chk, "(call %d)" % f) for f in (1, 1, 3, 1)]
+            rd3 = _pr(_rde(1, [1]), _rde(1, [0]), _rde(1, [2]))
+            M = [acts[0], rd3, acts[1], _pr(_rde(1, [1])), acts[2], rd3, acts[3], _pr(_rde(1, [1]))]
+            after = [["T", 0, 1], ["T"], ["T", 0, 1], ["T"]]
+            payloads = ["7"] * 4
+        cell0 = start
+    elif p == "try-call-assign":
+        start = accepted_value(t, rng)
+        w = accepted_value(t, rng, avoid=(start,))
+        G = ["(G 0 %s 1 () (%d))" % (t, start), SENT]
+        calls = ["(call 1 %d)" % v, "(call 1 %d)" % v, "(call 1 %d)" % w, "(call 1 %d)" % v]
+        if how in ("var", "checked"):
+            F = ["(F 1 long ((7 long)) ((asg (v 1) (v 7)) (ret 7)))"]
+        elif how == "lit":
+            F = ["(F 1 long () ((asg (v 1) %d) (ret 7)))" % v, "(F 3 long () ((asg (v 1) %d) (ret 7)))" % w]
+            calls = ["(call 1)", "(call 1)", "(call 3)", "(call 1)"]
+        elif how == "expr":
+            a, b = split_sum(v, rng)
+            if not in64(w - b):
+                return None
+            F = ["(F 1 long ((7 long)) ((asg (v 1) (bin + (v 7) %d)) (ret 7)))" % b]
+            calls = ["(call 1 %d)" % a, "(call 1 %d)" % a, "(call 1 %d)" % (w - b), "(call 1 %d)" % a]
+        elif how == "tern":
+            F = ["(F 1 long ((7 long)) ((decl 0 0 long 4 1) (asg (v 1) (cond (v 4) (v 7) 0)) (ret 7)))"]
+        elif how == "call":
+            F = [IDENT, "(F 1 long ((7 long)) ((asg (v 1) (call 2 (v 7))) (ret 7)))"]
+        elif how == "nested":
+            # the store happens two calls below the try; the value of the inner call is used afterwards (never reached when rejected)
+            F = ["(F 1 long ((7 long)) ((asg (v 1) (v 7)) (ret 7)))", "(F 3 long ((7 long)) ((ret (bin + (call 1 (v 7)) 0))))"]
+            calls = [c.replace("(call 1 ", "(call 3 ") for c in calls]
+        else:
+            raise ValueError(path)
+        acts = [_try(chk, c) for c in calls]
+        M = [acts[0], _pr(_rd(1), "(v 9)"), acts[1], _pr(_rd(1)), acts[2], _pr(_rd(1), "(v 9)"), acts[3], _pr(_rd(1))]
+        ops = ["=%d" % v, "=%d" % v, "=%d" % w, "=%d" % v]
+        after = [["T", 7], ["T"], ["T", 7], ["T"]]
+        payloads = ["7"] * 4
+        cell0 = start
+        if IDENT not in F:
+            F.append(IDENT)
+        M += ["(decl 0 0 long 5 (v 1))", _pr("(call 2 (v 1))", "(v 5)")]
+        tail = ["T", "T"]
+    elif p == "try-call-compound":
+        r = compound_operands("add", t, v, rng)
+        if r is None:
+            return None
+        start, op, operand = r
+        w = accepted_value(t, rng, avoid=(start,))
+        G = ["(G 0 %s 1 () (%d))" % (t, start), SENT]
+        F = ["(F 1 long ((7 long)) ((casg + (v 1) (v 7)) (ret 7)))"]
+        back = w - start                       # brings a cell that still holds `start` to w
+        if not in64(back):
+            return None
+        acts = [_try(chk, "(call 1 %d)" % x) for x in (operand, operand, back, operand)]
+        M = [acts[0], _pr(_rd(1), "(v 9)"), acts[1], _pr(_rd(1)), acts[2], _pr(_rd(1), "(v 9)"), acts[3], _pr(_rd(1))]
+        ops = ["+%d" % operand, "+%d" % operand, "+%d" % back, "+%d" % operand]
+        after = [["T", 7], ["T"], ["T", 7], ["T"]]
+        payloads = ["7"] * 4
+        cell0 = start
+    elif path in ("try-call-elem1:global", "try-call-elemN:global"):
+        slo, shi = RANGES[t[1:]] if t.startswith("u") else (lo, hi)     # a global array has lost is_unsigned: start values both readings admit
+        start = rng.choice([x for x in (0, 1, min(hi, shi), rng.randint(0, min(hi, shi))) if True])
+        w = rng.choice([x for x in (2, 3, min(hi, shi) - 1, rng.randint(0, min(hi, shi))) if x != start] or [2])
+        if p == "try-call-elem1":
+            G = ["(G 0 %s 1 (3) (0 %d 1))" % (t, start)]
+            F = ["(F 1 long ((7 long)) ((asg (idx 1 1) (v 7)) (ret 7)))"]
+            tg, n0, n1 = _rde(1, [1]), _rde(1, [0]), _rde(1, [2])
+        else:
+            G = ["(G 0 %s 1 (2 2) (0 1 %d 0))" % (t, start)]
+            F = ["(F 1 long ((7 long)) ((asg (idx 1 1 0) (v 7)) (ret 7)))"]
+            tg, n0, n1 = _rde(1, [1, 0]), _rde(1, [0, 0]), _rde(1, [0, 1])
+        acts = [_try(chk, "(call 1 %d)" % x) for x in (v, v, w, v)]
+        M = [acts[0], _pr(tg, n0, n1), acts[1], _pr(tg), acts[2], _pr(tg, n0, n1), acts[3], _pr(tg)]
+        ops = ["=%d" % v, "=%d" % v, "=%d" % w, "=%d" % v]
+        after = [["T", 0, 1], ["T"], ["T", 0, 1], ["T"]]
+        payloads = ["7"] * 4
+        cell0 = start
+    elif path == "try-call-static:assign":
+        slo, shi = RANGES[t[1:]] if t.startswith("u") else (lo, hi)     # a static has lost is_unsigned (finding C04-static-unsigned-flag-lost)
+        start = rng.choice([0, 1, min(hi, shi)])
+        w = rng.choice([x for x in (2, 3, min(hi, shi) - 1) if x != start])
+        # long f1(long v7, long v6) { static T v8 = start; if (v6) { v8 = v7; } return (v8 + 0); }
+        F = ["(F 1 long ((7 long) (6 long)) ((decl 0 1 %s 8 %d) (if (v 6) ((asg (v 8) (v 7))) ()) (ret (bin + (v 8) 0))))" % (t, start)]
+        acts = [_try(chk, "(call 1 %d 1)" % x) for x in (v, v, w, v)]
+        rdv = "(call 1 0 0)"
+        M = [acts[0], _pr(rdv), acts[1], _pr(rdv), acts[2], _pr(rdv), acts[3], _pr(rdv)]
+        ops = ["=%d" % v, "=%d" % v, "=%d" % w, "=%d" % v]
+        after = [["T"]] * 4
+        payloads = ["newread"] * 4
+        cell0 = start
+    elif path == "try-call-static:init":
+        # static T v8 = v7; - a rejected initialiser must not create the static: the next call initialises it
+        if lo <= v <= hi or (lo == 0 and v < 0):
+            return None
+        w = accepted_value(t, rng)
+        F = ["(F 1 long ((7 long)) ((decl 0 1 %s 8 (v 7)) (ret (bin + (v 8) 0))))" % t]
+        acts = [_try(chk, "(call 1 %d)" % x) for x in (v, v, w)]
+        M = [acts[0], acts[1], acts[2], _pr("(call 1 0)")]
+        ops = ["=%d" % v, "=%d" % v, "=%d" % w]
+        after = [None, None, ["T"]]
+        payloads = ["newread"] * 3
+        cell0 = 0
+    elif p in ("try-call-arg", "try-call-return", "try-call-decl"):
+        w = accepted_value(t, rng)
+        G = ["(G 0 long 9 () (0))"]
+        if p == "try-call-arg":
+            if how == "second":
+                F = ["(F 1 long ((7 long) (2 %s)) ((asg (v 9) (bin + (v 9) 1)) (ret (bin + (v 2) (v 7)))))" % t]
+                calls = ["(call 1 0 %d)" % x for x in (v, v, w, v)]
+            else:
+                F = ["(F 1 long ((2 %s)) ((asg (v 9) (bin + (v 9) 1)) (ret (bin + (v 2) 0))))" % t]
+                calls = ["(call 1 %d)" % x for x in (v, v, w, v)]
+            counts = None                   # the body runs only when the argument was accepted
+        elif p == "try-call-return":
+            # the stores of the body happen before the result is rejected: the counter goes up every time
+            F = ["(F 1 %s ((7 long)) ((asg (v 9) (bin + (v 9) 1)) (ret (v 7))))" % t]
+            calls = ["(call 1 %d)" % x for x in (v, v, w, v)]
+            counts = [1, 2, 3, 4]
+        else:
+            F = ["(F 1 long ((7 long)) ((asg (v 9) (bin + (v 9) 1)) (decl 0 0 %s 8 (v 7)) (ret (bin + (v 8) 0))))" % t]
+            calls = ["(call 1 %d)" % x for x in (v, v, w, v)]
+            counts = [1, 2, 3, 4]
+        acts = [_try(chk, c) for c in calls]
+        M = []
+        for a in acts:
+            M += [a, _pr("(v 9)")]
+        ops = ["=%d" % v, "=%d" % v, "=%d" % w, "=%d" % v]
+        after = [["C"]] * 4 if counts is None else [[c] for c in counts]
+        payloads = ["newread"] * 4
+        cell0 = 0
+    else:
+        raise ValueError(path)
+    return {"sexpr": "(T (%s) (%s) (%s))" % (" ".join(G), " ".join(F), " ".join(M)), "mpath": mpath, "type": t, "cell0": cell0,
+            "ops": ops, "payloads": payloads, "after": after, "tail": tail}
+
+
+def predict_try(cell, answers):
+    """stdout of a try cell whose stores behave as `answers` = [(accepted, read, raw)] say"""
+    lines = []
+    raw_prev = read_prev = cell["cell0"]
+    accepted = 0
+    for k, (ok, read, raw) in enumerate(answers):
+        if ok:
+            accepted += 1
+            kind = cell["payloads"][k]
+            if kind == "value":                 # the right-hand side of an assignment expression as evaluated
+                op = cell["ops"][k]
+                pl = int(op[1:]) + (0 if op[0] == "=" else raw_prev if op[0] == "+" else read_prev)
+            else:
+                pl = {"7": 7, "old": raw_prev, "new": raw, "newread": read}[kind]
+            lines.append("1 %d" % pl)
+        else:
+            lines.append("0")
+        toks = cell["after"][k]
+        if toks is not None:
+            lines.append(" ".join(str(read) if x == "T" else str(accepted) if x == "C" else str(x) for x in toks))
+        raw_prev, read_prev = raw, read
+    if cell.get("tail") and answers:
+        read = answers[-1][1]
+        lines.append(" ".join(str(read) if x == "T" else str(x) for x in cell["tail"]))
+    return "".join(l + "\n" for l in lines)
+
+
+def try_wellformed(cell, answers):
+    """every value a store of the cell computes stays inside int64 (64-bit overflow on the way to a store is not a well-formed
+    program: Undef in Ref, finding C04-long-arithmetic-wraps in main)"""
+    raw = read = cell["cell0"]
+    for op, (ok, rd, rw) in zip(cell["ops"], answers):
+        v = int(op[1:])
+        if op[0] == "+":
+            v += raw
+        elif op[0] == "~":
+            v += read
+        if not in64(v):
+            return False
+        raw, read = rw, rd
+    return True
+
+
+def parse_effects(line):
+    """`ok READ RAW ; range READ RAW ; ..` -> [(accepted, read, raw)]"""
+    out = []
+    for part in line.split(";"):
+        w = part.split()
+        if len(w) != 3 or w[0] not in ("ok", "range"):
+            raise ValueError("effects answer %r" % line)
+        out.append((w[0] == "ok", int(w[1]), int(w[2])))
+    return out
+
+
+def try_queries(cell):
+    t = cell["type"]
+    return ("effects %s %s %d %s" % (cell["mpath"], t, cell["cell0"], " ".join(cell["ops"])),
+            "spec-effects %s %d %s" % (t, cell["cell0"], " ".join(cell["ops"])))
+
+
+def try_matrix(rng, types=None, paths=None):
+    """-> list of (cell, meta) - meta = {path, type, kind, value, query, spec_query}"""
+    out = []
+    for t in (types or TYPES):
+        vals = values_for(t, rng)
+        for path in (paths or TRY_PATHS):
+            for kind in KINDS:
+                v = vals.get(kind)
+                if v is None:
+                    continue
+                c = try_build(path, t, v, rng)
+                if c is None:
+                    continue
+                q, sq = try_queries(c)
+                out.append((c, {"path": path, "type": t, "kind": kind, "value": v, "query": q, "spec_query": sq, "try": True}))
+    return out
+
+
+# try cells outside CbCore (no Ref run: the expected transcript is predicted from the Spec effects)
+RAW_TRY_PATHS = ["raw-try-reference:incdec", "raw-try-elem:assign-expr", "raw-try-elem:compound-expr", "raw-try-arrparam:elem", "raw-try-param:incdec", "raw-try-static:incdec", "raw-try-block:incdec",
+                 "raw-try-gmember:assign", "raw-try-gmember:compound", "raw-try-gmember:incdec", "raw-try-gmember:array-elem",
+                 "raw-try-lmember:array-elem-call", "raw-try-loop:assign", "raw-try-typedef:incdec", "raw-try-generic:incdec-call"]
+RAW_TRY_MECH = {"raw-try-reference": "incdec-var", "raw-try-elem:assign-expr": "elem1", "raw-try-elem:compound-expr": "elem1-compound", "raw-try-arrparam": "elem1", "raw-try-param": "incdec-var", "raw-try-static": "static-assign", "raw-try-block": "incdec-var", "raw-try-gmember": "member",
+                "raw-try-lmember": "member", "raw-try-loop": "assign", "raw-try-typedef": "incdec-var", "raw-try-generic": "member-generic"}
+REPORT = "  match ( %s ) { Ok( w ) => { println( 1 , w ) ; } Err( e ) => { println( 0 , e ) ; } }\n"
+
+
+def _cb_lit(x):
+    if x == I64[0]:
+        return "( ( 0 - %d ) - 1 )" % I64[1]
+    return str(x) if x >= 0 else "( 0 - %d )" % -x
+
+
+def raw_try_build(path, t, v, rng):
+    if not in64(v):
+        return None
+    T = TYPE_TEXT[t]
+    p, how = path.split(":")
+    mpath = RAW_TRY_MECH.get(path) or RAW_TRY_MECH[p]
+    lo, hi = RANGES[t]
+    kw = rng.choice(["try", "checked"])
+    lit = _cb_lit
+
+    def tr(k, e, ind="  "):
+        return "%sResult<int, RuntimeError> r%d = %s %s ;\n%s%s" % (ind, k, kw, e, ind, REPORT.lstrip() % ("r%d" % k))
+    if p == "raw-try-elem":
+        # `try ( a[ 1 ] = e )` / `try ( a[ 1 ] += e )`: the one assignment expression that works puts a store into a LOCAL array element
+        # directly under try.  Ok carries the right-hand side as evaluated; cells in which the store converts it (a negative into an
+        # unsigned element) are left out - what the expression should yield then is not documented
+        if how == "assign-expr":
+            start = accepted_value(t, rng)
+            w = accepted_value(t, rng, avoid=(start,))
+            vals = [v, v, w, v]
+            if lo == 0 and min(vals) < 0:
+                return None
+            ops = ["=%d" % x for x in vals]
+            es = ["( a[ 1 ] = %s )" % lit(x) for x in vals]
+        else:
+            r = compound_operands("add", t, v, rng, nonneg_start=(t == "char"))
+            if r is None:
+                return None
+            start, op, operand = r
+            if lo == 0 and (v < 0 or start - operand < 0):
+                return None
+            if lo == 0 and hi < I64[1] and start >= (hi + 1) // 2:
+                return None                      # (the old value is read narrowed: finding C04-unsigned-element-read-narrowed, covered without try)
+            vals = [operand, operand, -operand if op == "+" else operand, operand]
+            ops = ["~%d" % (x if op == "+" else -x) for x in [operand, operand, -operand, operand]]
+            es = ["( a[ 1 ] %s= %s )" % (op, lit(x)) for x in [operand, operand, -operand, operand]]
+        body = "".join(tr(k, es[k]) + "  println( ( 0 + a[ 1 ] ) , ( 0 + a[ 0 ] ) , ( 0 + a[ 2 ] ) ) ;\n" for k in range(4))
+        src = "void main() {\n  %s[3] a = [ 0 , %s , 1 ] ;\n%s}\n" % (T, lit(start), body)
+        return {"src": src, "mpath": mpath, "type": t, "cell0": start, "ops": ops, "payloads": ["value"] * 4, "after": [["T", 0, 1]] * 4}
+    if p == "raw-try-arrparam":
+        # an array parameter refers to the caller's array: the callee's rejected element store must leave it as it was
+        start = accepted_value(t, rng)
+        w = accepted_value(t, rng, avoid=(start,))
+        args = [v, v, w, v]
+        ops = ["=%d" % x for x in args]
+        body = "".join(tr(k, "f( b , %s )" % lit(args[k])) + "  println( ( 0 + b[ 1 ] ) , ( 0 + b[ 0 ] ) , ( 0 + b[ 2 ] ) ) ;\n" for k in range(4))
+        src = "long f( %s[3] a , long x ) {\n  a[ 1 ] = x ;\n  return 7 ;\n}\nvoid main() {\n  %s[3] b = [ 0 , %s , 1 ] ;\n%s}\n" % (T, T, lit(start), body)
+        return {"src": src, "mpath": mpath, "type": t, "cell0": start, "ops": ops, "payloads": ["7"] * 4, "after": [["T", 0, 1]] * 4}
+    if how in ("incdec", "incdec-call") and p != "raw-try-gmember":
+        r = incdec_start(t, v, rng)
+        if r is None:
+            return None
+        start, inc = r
+        d = 1 if inc else -1
+        ops = ["+%d" % d, "+%d" % d, "+%d" % -d, "+%d" % d]
+        pres = [rng.randint(0, 1) for _ in range(4)]
+        incs = [inc, inc, 1 - inc, inc]
+
+        def e(k, x):
+            o = "++" if incs[k] else "--"
+            return ("%s %s" % (o, x)) if pres[k] else ("%s %s" % (x, o))
+        payloads = ["new" if x else "old" for x in pres]
+        after = [["T", 7], ["T"], ["T", 7], ["T"]]
+        if p == "raw-try-param":
+            body = "".join(tr(k, e(k, "p")) + ("  println( ( p + 0 ) , n ) ;\n" if k % 2 == 0 else "  println( ( p + 0 ) ) ;\n") for k in range(4))
+            src = "long f( %s p , long n ) {\n%s  return 0 ;\n}\nvoid main() {\n  f( %s , 7 ) ;\n}\n" % (T, body, lit(start))
+        elif p == "raw-try-static":
+            slo, shi = RANGES[t[1:]] if t.startswith("u") else (lo, hi)
+            if not (slo <= start <= shi and start >= 0):
+                return None
+            body = "".join(tr(k, e(k, "s")) + ("  println( ( s + 0 ) , n ) ;\n" if k % 2 == 0 else "  println( ( s + 0 ) ) ;\n") for k in range(4))
+            src = "long f( long n ) {\n  static %s s = %s ;\n%s  return 0 ;\n}\nvoid main() {\n  f( 7 ) ;\n}\n" % (T, lit(start), body)
+        elif p == "raw-try-block":
+            body = "".join(tr(k, e(k, "b"), "      ") + ("      println( ( b + 0 ) , n ) ;\n" if k % 2 == 0 else "      println( ( b + 0 ) ) ;\n") for k in range(4))
+            src = ("void main() {\n  long n = 7 ;\n  %s b = %s ;\n  for ( long i = 0 ; i < 1 ; i = i + 1 ) {\n    if ( n ) {\n%s    }\n  }\n"
+                   "  println( ( b + 0 ) ) ;\n}\n" % (T, lit(start), body))
+            after = after[:3] + [["T"]]
+            # the variable is read once more after the blocks are left
+            return {"src": src, "mpath": mpath, "type": t, "cell0": start, "ops": ops, "payloads": payloads, "after": after, "tail": ["T"]}
+        elif p == "raw-try-reference":
+            # ++ / -- through a reference to the variable: the referenced variable is read back
+            body = "".join(tr(k, e(k, "q")) + ("  println( ( b + 0 ) , n ) ;\n" if k % 2 == 0 else "  println( ( b + 0 ) ) ;\n") for k in range(4))
+            src = "void main() {\n  long n = 7 ;\n  %s b = %s ;\n  %s& q = b ;\n%s}\n" % (T, lit(start), T, body)
+        elif p == "raw-try-typedef":
+            if t not in TYPEDEF_ALIAS:
+                return None
+            A = TYPEDEF_ALIAS[t]
+            body = "".join(tr(k, e(k, "b")) + ("  println( ( b + 0 ) , n ) ;\n" if k % 2 == 0 else "  println( ( b + 0 ) ) ;\n") for k in range(4))
+            src = "typedef %s %s ;\nvoid main() {\n  long n = 7 ;\n  %s b = %s ;\n%s}\n" % (T, A, A, lit(start), body)
+        elif p == "raw-try-generic":
+            if t.startswith("u"):
+                return None
+            fs = "".join("long f%d() {\n  %s ;\n  return 7 ;\n}\n" % (k, e(k, "gb.v")) for k in range(4))
+            body = "".join(tr(k, "f%d()" % k) + ("  println( ( gb.v + 0 ) , n ) ;\n" if k % 2 == 0 else "  println( ( gb.v + 0 ) ) ;\n") for k in range(4))
+            src = "struct Box<T> { T v ; } ;\nBox<%s> gb ;\n%svoid main() {\n  long n = 7 ;\n  gb.v = %s ;\n%s}\n" % (T, fs, lit(start), body)
+            payloads = ["7"] * 4
+        else:
+            raise ValueError(path)
+        return {"src": src, "mpath": mpath, "type": t, "cell0": start, "ops": ops, "payloads": payloads, "after": after}
+    if p == "raw-try-gmember":
+        decl = "struct S { long p0 ; %s m ; long p1 ; %s[3] a ; } ;\nS gs ;\n" % (T, T)
+        init = "  gs.p0 = 5 ;\n  gs.p1 = 6 ;\n"
+        if how == "array-elem":
+            start = accepted_value(t, rng)
+            w = accepted_value(t, rng, avoid=(start,))
+            f = "long f( long x ) {\n  gs.a[ 1 ] = x ;\n  return 7 ;\n}\n"
+            init += "  gs.a[ 1 ] = %s ;\n  gs.a[ 2 ] = 1 ;\n" % lit(start)
+            rd3 = "  println( ( 0 + gs.a[ 1 ] ) , ( 0 + gs.a[ 0 ] ) , ( 0 + gs.a[ 2 ] ) ) ;\n"
+            rd1 = "  println( ( 0 + gs.a[ 1 ] ) ) ;\n"
+            args = [v, v, w, v]
+            ops = ["=%d" % x for x in args]
+            body = "".join(tr(k, "f( %s )" % lit(args[k])) + (rd3 if k % 2 == 0 else rd1) for k in range(4))
+            after = [["T", 0, 1], ["T"], ["T", 0, 1], ["T"]]
+        else:
+            rd3 = "  println( ( gs.m + 0 ) , gs.p0 , gs.p1 ) ;\n"
+            rd1 = "  println( ( gs.m + 0 ) ) ;\n"
+            after = [["T", 5, 6], ["T"], ["T", 5, 6], ["T"]]
+            if how == "assign":
+                start = accepted_value(t, rng)
+                w = accepted_value(t, rng, avoid=(start,))
+                f = "long f( long x ) {\n  gs.m = x ;\n  return 7 ;\n}\n"
+                args = [v, v, w, v]
+                ops = ["=%d" % x for x in args]
+                body = "".join(tr(k, "f( %s )" % lit(args[k])) + (rd3 if k % 2 == 0 else rd1) for k in range(4))
+            elif how == "compound":
+                r = compound_operands("add", t, v, rng)
+                if r is None:
+                    return None
+                start, op, operand = r
+                w = accepted_value(t, rng, avoid=(start,))
+                if not in64(w - start):
+                    return None
+                f = "long f( long x ) {\n  gs.m += x ;\n  return 7 ;\n}\n"
+                args = [operand, operand, w - start, operand]
+                ops = ["+%d" % x for x in args]
+                body = "".join(tr(k, "f( %s )" % lit(args[k])) + (rd3 if k % 2 == 0 else rd1) for k in range(4))
+            else:
+                r = incdec_start(t, v, rng)
+                if r is None:
+                    return None
+                start, inc = r
+                d = 1 if inc else -1
+                o, oo = ("++", "--") if inc else ("--", "++")
+                f = "long f( long x ) {\n  if ( x ) {\n    gs.m %s ;\n  } else {\n    %s gs.m ;\n  }\n  return 7 ;\n}\n" % (o, oo)
+                args = [1, 1, 0, 1]
+                ops = ["+%d" % d, "+%d" % d, "+%d" % -d, "+%d" % d]
+                body = "".join(tr(k, "f( %d )" % args[k]) + (rd3 if k % 2 == 0 else rd1) for k in range(4))
+            init += "  gs.m = %s ;\n" % lit(start)
+        src = decl + f + "void main() {\n" + init + body + "}\n"
+        return {"src": src, "mpath": mpath, "type": t, "cell0": start, "ops": ops, "payloads": ["7"] * 4, "after": after}
+    if p == "raw-try-lmember":
+        # a struct parameter is a copy: the callee stores into the element of its member array and reads it back after a nested try
+        start = accepted_value(t, rng)
+        w = accepted_value(t, rng, avoid=(start,))
+        f = ("long setel( long x ) {\n  gs.a[ 2 ] = x ;\n  return 7 ;\n}\n")
+        decl = "struct S { %s[3] a ; long p0 ; } ;\nS gs ;\n" % T
+        args = [v, v, w, v]
+        ops = ["=%d" % x for x in args]
+        body = "".join(tr(k, "setel( %s )" % lit(args[k])) + "  println( ( 0 + gs.a[ 2 ] ) , ( 0 + gs.a[ 1 ] ) , gs.p0 ) ;\n" for k in range(4))
+        src = decl + f + "void main() {\n  gs.p0 = 5 ;\n  gs.a[ 1 ] = 1 ;\n  gs.a[ 2 ] = %s ;\n%s}\n" % (lit(start), body)
+        return {"src": src, "mpath": mpath, "type": t, "cell0": start, "ops": ops, "payloads": ["7"] * 4, "after": [["T", 1, 5]] * 4}
+    if p == "raw-try-loop":
+        start = accepted_value(t, rng)
+        w = accepted_value(t, rng, avoid=(start,))
+        src = ("%s g = %s ;\nlong f( long x ) {\n  g = x ;\n  return 7 ;\n}\nvoid main() {\n  for ( long i = 0 ; i < 3 ; i = i + 1 ) {\n"
+               "    Result<int, RuntimeError> r = %s f( %s ) ;\n    %s    println( ( g + 0 ) ) ;\n  }\n%s  println( ( g + 0 ) ) ;\n}\n" % (
+                   T, lit(start), kw, lit(v), REPORT.lstrip() % "r", tr(9, "f( %s )" % lit(w))))
+        return {"src": src, "mpath": mpath, "type": t, "cell0": start, "ops": ["=%d" % v] * 3 + ["=%d" % w], "payloads": ["7"] * 4,
+                "after": [["T"]] * 4}
+    raise ValueError(path)
+
+
+def raw_try_matrix(rng, types=None, paths=None):
+    out = []
+    for t in (types or TYPES):
+        vals = values_for(t, rng)
+        for path in (paths or RAW_TRY_PATHS):
+            for kind in KINDS:
+                v = vals.get(kind)
+                if v is None:
+                    continue
+                c = raw_try_build(path, t, v, rng)
+                if c is None:
+                    continue
+                q, sq = try_queries(c)
+                out.append((c, {"path": path, "type": t, "kind": kind, "value": v, "query": q, "spec_query": sq, "try": True, "raw": True}))
     return out
 
 
@@ -935,6 +1549,139 @@ def mixed_program(rng):
             M.append("(asg (v %d) (bin + (v %d) %d))" % (x, x, rng.choice([1, -1, 127, -128, 32767])))
         M.append(_readback(x))
     return "(P (%s) (%s) (%s))" % (" ".join(G), " ".join(F), " ".join(M))
+
+
+def mixed_try_program(rng):
+    """A try-program (coq/C04/Try.v): typed cells - locals, globals, the narrow members of a plain struct, a signed local array, a signed
+    global array - and 6-14 actions on them, about half of them under try / checked with values aimed just outside the target's range:
+    x++ / --x on a cell, calls of setters / adders / bumpers of the globals, of a function with a narrow parameter, of a function with a
+    narrow result, of a setter of a global array element.  After every action the touched cell is read back, at the end every cell.  Every
+    store is on a path on which Mech refines Spec, so whatever is caught the reference transcript is the demanded one."""
+    G, F, M = [], [], []
+    vid = [0]
+
+    def fresh():
+        vid[0] += 1
+        return vid[0]
+
+    def edge(t, out_p):
+        lo, hi = RANGES[t]
+        k = rng.random()
+        if k < out_p:
+            c = [hi + 1, lo - 1, hi + rng.randint(1, 300), lo - rng.randint(1, 300), rng.randint(-2**40, 2**40)]
+            x = rng.choice(c)
+        elif k < out_p + 0.3:
+            x = rng.choice([lo, hi, lo + 1, hi - 1, 0, 1])
+        else:
+            x = rng.randint(lo, hi)
+        return max(I64[0] + 2, min(I64[1] - 2, x))
+
+    gl = []            # global scalars (id, type)
+    for _ in range(rng.randint(1, 3)):
+        t = rng.choice(NARROW)
+        x = fresh()
+        G.append("(G 0 %s %d () (%d))" % (t, x, edge(t, 0)))
+        gl.append((x, t))
+    garr = None
+    if rng.random() < 0.6:
+        at = rng.choice(["tiny", "short", "int", "long"])
+        dims = [rng.randint(2, 4)] if rng.random() < 0.6 else [2, rng.randint(2, 3)]
+        garr = (fresh(), at, dims)
+        G.append("(G 0 %s %d (%s) ())" % (at, garr[0], " ".join(map(str, dims))))
+    # functions: 10+k set, 20+k add, 30+k bump up, 40+k bump down for global k; 1: narrow parameter; 2: narrow result; 3: element setter
+    a7 = 90
+    for k, (x, t) in enumerate(gl):
+        F.append("(F %d long ((%d long)) ((asg (v %d) (v %d)) (ret 7)))" % (10 + k, a7, x, a7))
+        F.append("(F %d long ((%d long)) ((casg + (v %d) (v %d)) (ret 7)))" % (20 + k, a7, x, a7))
+        F.append("(F %d long () ((incdec %d 1 (v %d)) (ret 7)))" % (30 + k, rng.randint(0, 1), x))
+        F.append("(F %d long () ((incdec %d 0 (v %d)) (ret 7)))" % (40 + k, rng.randint(0, 1), x))
+    pt = rng.choice(NARROW)
+    F.append("(F 1 long ((%d %s)) ((ret (bin + (v %d) 0))))" % (a7, pt, a7))
+    rt = rng.choice(NARROW)
+    F.append("(F 2 %s ((%d long)) ((ret (v %d))))" % (rt, a7, a7))
+    if garr:
+        nidx = len(garr[2])
+        ps = " ".join("(%d long)" % (a7 + 1 + j) for j in range(nidx))
+        ix = " ".join("(v %d)" % (a7 + 1 + j) for j in range(nidx))
+        F.append("(F 3 long (%s (%d long)) ((asg (idx %d %s) (v %d)) (ret 7)))" % (ps, a7, garr[0], ix, a7))
+    cells = list(gl)
+    for _ in range(rng.randint(2, 4)):
+        t = rng.choice(NARROW)
+        x = fresh()
+        M.append("(decl 0 0 %s %d %d)" % (t, x, edge(t, 0)))
+        cells.append((x, t))
+    if rng.random() < 0.5:
+        sx = fresh()
+        flds = ["long"] + [rng.choice(NARROW) for _ in range(rng.randint(1, 3))]
+        M.append("(struct 1 %d %s)" % (sx, " ".join(flds)))
+        for j, t in enumerate(flds):
+            if j:
+                cells.append((1000 + 8 * sx + j, t))
+    larr = None
+    if rng.random() < 0.5:
+        at = rng.choice(["tiny", "short", "int", "long"])
+        larr = (fresh(), at, rng.randint(2, 4))
+        M.append("(arr 0 %s %d (%d) ())" % (at, larr[0], larr[2]))
+    carrier = fresh()
+    M.append("(decl 0 0 long %d 0)" % carrier)
+    for _ in range(rng.randint(6, 14)):
+        chk = rng.random() < 0.25
+        k = rng.random()
+        x, t = rng.choice(cells)
+        lo, hi = RANGES[t]
+        if k < 0.22:
+            # try x++ / --x : first bring the cell next to a limit (a plain, accepted store), then step over it
+            if rng.random() < 0.7:
+                # (a 64-bit cell is not stepped over its upper limit: that is signed overflow, Undef in Ref)
+                M.append("(asg (v %d) %d)" % (x, rng.choice([lo, lo + 1] if hi == I64[1] else [hi, hi - 1, lo, lo + 1])))
+            for _ in range(rng.randint(1, 3)):
+                M.append(_try(chk, "(incdec %d %d (v %d))" % (rng.randint(0, 1), rng.randint(0, 1), x)))
+            M.append(_pr(_rd(x)))
+        elif k < 0.30 and larr is not None:
+            i = rng.randrange(larr[2])
+            alo, ahi = RANGES[larr[1]]
+            M.append("(asg (idx %d %d) %d)" % (larr[0], i, rng.choice([0, 1] if ahi == I64[1] else [ahi, alo, ahi - 1, 0])))
+            for _ in range(rng.randint(1, 2)):
+                M.append(_try(chk, "(incdec %d %d (idx %d %d))" % (rng.randint(0, 1), rng.randint(0, 1), larr[0], i)))
+            M.append(_pr(*[_rde(larr[0], [j]) for j in range(larr[2])]))
+        elif k < 0.55:
+            # a store into a global through a callee, under try
+            gk = rng.randrange(len(gl))
+            gx, gt = gl[gk]
+            j = rng.random()
+            if j < 0.45:
+                M.append(_try(chk, "(call %d %d)" % (10 + gk, edge(gt, 0.5))))
+            elif j < 0.7:
+                M.append(_try(chk, "(call %d %d)" % (20 + gk, rng.choice([1, -1, 2, 100, -100, 255, 65535, -65536, 2**31, -2**31]))))
+            else:
+                glo, ghi = RANGES[gt]
+                if rng.random() < 0.6:
+                    M.append("(asg (v %d) %d)" % (gx, rng.choice([0, 1] if ghi == I64[1] else [ghi, glo])))
+                M.append(_try(chk, "(call %d)" % (rng.choice([30, 40]) + gk)))
+            M.append(_pr(_rd(gx)))
+        elif k < 0.63:
+            M.append(_try(chk, "(call 1 %d)" % edge(pt, 0.5)))
+        elif k < 0.71:
+            M.append(_try(chk, "(call 2 %d)" % edge(rt, 0.5)))
+        elif k < 0.79 and garr is not None:
+            idx = [rng.randrange(n) for n in garr[2]]
+            M.append(_try(chk, "(call 3 %s %d)" % (" ".join(map(str, idx)), edge(garr[1], 0.5))))
+            M.append(_pr(_rde(garr[0], idx)))
+        elif k < 0.88:
+            # plain stores (not caught): accepted values mostly
+            M.append("(asg (v %d) %d)" % (x, edge(t, 0.03)))
+            M.append(_pr(_rd(x)))
+        elif k < 0.94:
+            M.append("(casg %s (v %d) %d)" % (rng.choice(["+", "-"]), x, rng.choice([0, 1, 1, 2])))
+            M.append(_pr(_rd(x)))
+        else:
+            M.append("(asg (v %d) (call 1 %d))" % (carrier, edge(pt, 0.03)))
+            M.append(_pr(_rd(carrier)))
+    M.append(_pr(*[_rd(x) for x, _ in cells]))
+    if garr:
+        M.append(_pr(*[_rde(garr[0], [i] if len(garr[2]) == 1 else [i // garr[2][1], i % garr[2][1]])
+                       for i in range(garr[2][0] * (garr[2][1] if len(garr[2]) > 1 else 1))]))
+    return "(T (%s) (%s) (%s))" % (" ".join(G), " ".join(F), " ".join(M))
 
 
 # ---------------------------------------------------------------------------------------------
